@@ -116,6 +116,15 @@ Definition call (m : meffect) (ar : args) (v : nat) (oth : option nat) (s : st) 
       end
   end.
 
+(* call a method that has no receiver (classmethod): `self` is a scratch object nobody refers to *)
+Definition static_call (m : meffect) (ar : args) (b : nat) (s : st) : st :=
+  let '(h, _, out) := run_method m ar (List.length (heap_of s)) b (heap_of s ++ [[]]) in
+  match out with
+  | ONone => mkSt h (tv s) (sv s)
+  | ONewT c => mkSt h (tv s ++ [c]) (sv s)
+  | ONewS c => mkSt h (tv s) (sv s ++ [c])
+  end.
+
 Inductive op :=
 | OText (p : circ)                                 (* Circuit(text); p = stim.Circuit(shorthand_to_stim(text)) *)
 | OFromStim (s : nat)                              (* Circuit.from_stim_program(stim variable s) *)
@@ -143,19 +152,13 @@ Definition tlen (s : st) (v : nat) : Z :=
 
 Definition t_step (o : op) (s : st) : st :=
   match o with
-  | OText p =>
-      let '(h0, a0) := halloc (heap_of s) [] in                (* the new, not yet initialised handle *)
-      let '(h, a', _) := run_method eff_init (with_text p) a0 a0 h0 in
-      mkSt h (tv s ++ [a']) (sv s)
+  | OText p =>                                   (* a new handle (wrapping nothing yet), then __init__ on it *)
+      call eff_init (with_text p) (List.length (tv s)) None
+           (mkSt (heap_of s ++ [[]]) (tv s ++ [List.length (heap_of s)]) (sv s))
   | OFromStim w =>
       match nth_error (sv s) w with
       | None => s
-      | Some b =>
-          match run_method eff_from_stim_program no_args b b (heap_of s) with
-          | (h, _, ONewT c) => mkSt h (tv s ++ [c]) (sv s)
-          | (h, _, ONewS c) => mkSt h (tv s) (sv s ++ [c])
-          | (h, _, ONone) => mkSt h (tv s) (sv s)
-          end
+      | Some b => static_call eff_from_stim_program no_args b s
       end
   | OAppendText v p => call eff_append_text (with_text p) v None s
   | OAdd v x =>
@@ -196,21 +199,19 @@ Record rst := mkR { rt : list circ; rs : list circ }.
 Definition rst0 : rst := mkR [] [].
 
 Definition annot_names : list string := ["OBSERVABLE_INCLUDE"; "DETECTOR"].
-Fixpoint ra_item (x : item) : list item :=
+Fixpoint rd_item (names : list string) (x : item) : list item :=
   match x with
-  | It i => if mem (iname i) annot_names then [] else [x]
-  | Rep n b => [Rep n (flat_map ra_item b)]
+  | It i => if mem (iname i) names then [] else [x]
+  | Rep n b => [Rep n (flat_map (rd_item names) b)]
   end.
-Definition ref_without_annot (c : circ) : circ := flat_map ra_item c.
+Definition ref_drop (names : list string) (c : circ) : circ := flat_map (rd_item names) c.
+Definition ref_without_annot (c : circ) : circ := ref_drop annot_names c.
 Fixpoint rwn_item (x : item) : list item :=
   match x with
   | It i => match wn_instr i with Some j => [It j] | None => [] end
   | Rep n b => [Rep n (flat_map rwn_item b)]
   end.
 Definition ref_without_noise (c : circ) : circ := flat_map rwn_item c.
-
-(* two circuits are the same up to REPEAT unrolling and Stim's merging *)
-Definition sim (a b : circ) : Prop := fuse (flatten0 a) = fuse (flatten0 b).
 
 Definition rval (o : operand) (r : rst) : option circ :=
   match o with OpT v => nth_error (rt r) v | OpS w => nth_error (rs r) w end.
